@@ -189,10 +189,27 @@ impl Analysis {
         filter: F,
     ) -> Vec<(&DefinitionType, &Definition)> {
         let path = path.into();
-        self.definitions
+        let mut result: Vec<(&DefinitionType, &Definition)> = self
+            .definitions
             .iter()
             .filter(|(ty, definition)| filter(ty) && definition.contains(&self.tree, &path, pos))
-            .collect()
+            .collect();
+        // The definitions live in a hash map, so put them in a fixed order: the one with the narrowest location at
+        // this position comes first (e.g. a label before the file that contains it)
+        result.sort_by_key(|(ty, definition)| {
+            let narrowest = definition
+                .definition_and_usages()
+                .into_iter()
+                .filter(|dl| span_contains(dl.span, &self.tree, &path, pos))
+                .map(|dl| (dl.span.len(), dl.span))
+                .min();
+            let ty = match ty {
+                DefinitionType::Symbol(nx) => (0, nx.index(), None),
+                DefinitionType::Filename(p) => (1, 0, Some(p.clone())),
+            };
+            (narrowest, ty)
+        });
+        result
     }
 
     pub fn look_up(&self, span: Span) -> SpanLoc {
